@@ -72,7 +72,10 @@ def infer_redirection(url, recursive=True):
             elif "youtube.com/redirect?" in url:
                 target = "https://" + potential_target
 
-    if target is None:
+    # NOTE: a target is a part of the given url, so it has to be shorter. Else
+    # the redirection hint lies where it will find its way into the target
+    # again (e.g. in the authority, for a relative target) and we would never stop.
+    if target is None or len(target) >= len(url):
         return url
 
     if recursive:
